@@ -1,16 +1,25 @@
 // Package vsync replaces package sync in instrumented copies of the code under
 // test: same method sets, zero values usable, values copyable; every blocking
 // operation is a scheduling point of the controlled runtime.
+//
+// Race mode: every function here is //go:norace (the model's own state is
+// invisible to the detector); each primitive reports exactly the
+// happens-before edges of the real primitive (RaceAcquire / RaceRelease on the
+// object's address) and performs one REAL atomic operation on a field of the
+// object, so that a plain copy or overwrite of the object racing with its use
+// (copying a struct that embeds a mutex, `once = sync.Once{}`) is reported as
+// it would be for the real type.
 package vsync
 
 import (
 	"sync"
+	"sync/atomic"
 	"unsafe"
 
 	"verifh/vrt"
 )
 
-// Locker, Pool, Map, Cond are passed through (not used by the pipeline).
+// Locker, Pool, Map are passed through (not used by the pipeline).
 type (
 	Locker = sync.Locker
 	Pool   = sync.Pool
@@ -21,21 +30,31 @@ type Mutex struct {
 	gen    uint32
 	locked bool
 	owner  int32
+	touch  int32
 	real   sync.Mutex // pass-through mode
 }
 
+//go:norace
 func (m *Mutex) fresh(w *vrt.World) {
 	if m.gen != w.Gen {
 		m.gen, m.locked = w.Gen, false
 	}
 }
 
+//go:norace
 func (m *Mutex) Lock() {
 	w := vrt.W()
 	if w == nil {
 		m.real.Lock()
 		return
 	}
+	m.lock(w)
+	atomic.AddInt32(&m.touch, 1)
+	vrt.RaceAcquire(unsafe.Pointer(m))
+}
+
+//go:norace
+func (m *Mutex) lock(w *vrt.World) {
 	if w.Closing() {
 		return
 	}
@@ -43,20 +62,30 @@ func (m *Mutex) Lock() {
 	if m.locked {
 		vrt.CountContention()
 	}
-	w.Point("lock", false, func() bool { m.fresh(w); return !m.locked })
+	w.PointC("lock", false, mutexFree{m, w})
 	if w.Closing() {
 		return
 	}
 	m.locked = true
 	m.owner = int32(w.Cur().ID)
-	vrt.RaceAcquire(unsafe.Pointer(m))
 }
 
+//go:norace
 func (m *Mutex) TryLock() bool {
 	w := vrt.W()
 	if w == nil {
 		return m.real.TryLock()
 	}
+	ok := m.trylock(w)
+	atomic.AddInt32(&m.touch, 1)
+	if ok {
+		vrt.RaceAcquire(unsafe.Pointer(m))
+	}
+	return ok
+}
+
+//go:norace
+func (m *Mutex) trylock(w *vrt.World) bool {
 	if w.Closing() {
 		return true
 	}
@@ -66,136 +95,146 @@ func (m *Mutex) TryLock() bool {
 		return false
 	}
 	m.locked = true
-	vrt.RaceAcquire(unsafe.Pointer(m))
 	return true
 }
 
+//go:norace
 func (m *Mutex) Unlock() {
 	w := vrt.W()
 	if w == nil {
 		m.real.Unlock()
 		return
 	}
+	atomic.AddInt32(&m.touch, 1)
+	vrt.RaceRelease(unsafe.Pointer(m))
 	m.fresh(w)
 	if !m.locked && !w.Closing() {
 		panic("sync: unlock of unlocked mutex")
 	}
-	vrt.RaceRelease(unsafe.Pointer(m))
 	m.locked = false
 }
 
-// RWMutex is modelled as a plain mutex for writers plus a reader count.
+// RWMutex: writers exclusive, readers shared.
 type RWMutex struct {
 	gen     uint32
 	writer  bool
 	readers int
+	touch   int32
 	real    sync.RWMutex
 }
 
+//go:norace
 func (m *RWMutex) fresh(w *vrt.World) {
 	if m.gen != w.Gen {
 		m.gen, m.writer, m.readers = w.Gen, false, 0
 	}
 }
+
+//go:norace
 func (m *RWMutex) Lock() {
 	w := vrt.W()
 	if w == nil {
 		m.real.Lock()
 		return
 	}
-	if w.Closing() {
-		return
-	}
-	m.fresh(w)
-	w.Point("wlock", false, func() bool { m.fresh(w); return !m.writer && m.readers == 0 })
-	if w.Closing() {
-		return
-	}
-	m.writer = true
+	m.wlockModel(w)
+	atomic.AddInt32(&m.touch, 1)
 	vrt.RaceAcquire(unsafe.Pointer(m))
 }
+
+//go:norace
 func (m *RWMutex) Unlock() {
 	w := vrt.W()
 	if w == nil {
 		m.real.Unlock()
 		return
 	}
+	atomic.AddInt32(&m.touch, 1)
 	vrt.RaceRelease(unsafe.Pointer(m))
 	m.writer = false
 }
+
+//go:norace
 func (m *RWMutex) RLock() {
 	w := vrt.W()
 	if w == nil {
 		m.real.RLock()
 		return
 	}
-	if w.Closing() {
-		return
-	}
-	m.fresh(w)
-	w.Point("rlock", false, func() bool { m.fresh(w); return !m.writer })
-	if w.Closing() {
-		return
-	}
-	m.readers++
+	m.rlockModel(w)
+	atomic.AddInt32(&m.touch, 1)
 	vrt.RaceAcquire(unsafe.Pointer(m))
 }
+
+//go:norace
 func (m *RWMutex) RUnlock() {
 	w := vrt.W()
 	if w == nil {
 		m.real.RUnlock()
 		return
 	}
+	atomic.AddInt32(&m.touch, 1)
 	vrt.RaceReleaseMerge(unsafe.Pointer(m))
 	if m.readers > 0 {
 		m.readers--
 	}
 }
+
+//go:norace
 func (m *RWMutex) RLocker() sync.Locker { return (*rlocker)(m) }
 
 type rlocker RWMutex
 
-func (r *rlocker) Lock()   { (*RWMutex)(r).RLock() }
+//go:norace
+func (r *rlocker) Lock() { (*RWMutex)(r).RLock() }
+
+//go:norace
 func (r *rlocker) Unlock() { (*RWMutex)(r).RUnlock() }
 
 type WaitGroup struct {
-	gen  uint32
-	n    int
-	real sync.WaitGroup
+	gen   uint32
+	n     int
+	touch int32
+	real  sync.WaitGroup
 }
 
+//go:norace
 func (g *WaitGroup) fresh(w *vrt.World) {
 	if g.gen != w.Gen {
 		g.gen, g.n = w.Gen, 0
 	}
 }
+
+//go:norace
 func (g *WaitGroup) Add(d int) {
 	w := vrt.W()
 	if w == nil {
 		g.real.Add(d)
 		return
 	}
-	g.fresh(w)
-	g.n += d
+	atomic.AddInt32(&g.touch, 1)
 	if d < 0 {
 		vrt.RaceReleaseMerge(unsafe.Pointer(g))
 	}
+	g.fresh(w)
+	g.n += d
 	if g.n < 0 && !w.Closing() {
 		panic("sync: negative WaitGroup counter")
 	}
 }
+
+//go:norace
 func (g *WaitGroup) Done() { g.Add(-1) }
+
+//go:norace
 func (g *WaitGroup) Wait() {
 	w := vrt.W()
 	if w == nil {
 		g.real.Wait()
 		return
 	}
-	if w.Closing() {
-		return
-	}
-	g.fresh(w)
-	w.Point("wg.wait", false, func() bool { g.fresh(w); return g.n <= 0 })
+	g.waitModel(w)
+	atomic.AddInt32(&g.touch, 1)
 	vrt.RaceAcquire(unsafe.Pointer(g))
 }
 
@@ -203,36 +242,130 @@ type Once struct {
 	gen     uint32
 	done    bool
 	running bool
+	touch   int32
 	real    sync.Once
 }
 
+//go:norace
 func (o *Once) fresh(w *vrt.World) {
 	if o.gen != w.Gen {
 		o.gen, o.done, o.running = w.Gen, false, false
 	}
 }
+
+// begin returns true when the caller must run f.
+//
+//go:norace
+func (o *Once) begin(w *vrt.World) (run bool) {
+	if w.Closing() {
+		return false
+	}
+	o.fresh(w)
+	w.PointC("once", false, onceIdle{o, w})
+	if w.Closing() || o.done {
+		return false
+	}
+	o.running = true
+	return true
+}
+
+//go:norace
+func (o *Once) end() {
+	o.done, o.running = true, false
+}
+
+//go:norace
 func (o *Once) Do(f func()) {
 	w := vrt.W()
 	if w == nil {
 		o.real.Do(f)
 		return
 	}
-	if w.Closing() {
-		return
-	}
-	o.fresh(w)
-	w.Point("once", false, func() bool { o.fresh(w); return !o.running })
-	if w.Closing() {
-		return
-	}
-	if o.done {
+	atomic.AddInt32(&o.touch, 1) // sync.Once.Do starts with an atomic load of the object
+	if !o.begin(w) {
 		vrt.RaceAcquire(unsafe.Pointer(o))
 		return
 	}
-	o.running = true
-	defer func() {
-		o.done, o.running = true, false
-		vrt.RaceRelease(unsafe.Pointer(o))
-	}()
+	defer o.finish()
 	f()
+}
+
+type mutexFree struct {
+	m *Mutex
+	w *vrt.World
+}
+
+//go:norace
+func (c mutexFree) Ready() bool { c.m.fresh(c.w); return !c.m.locked }
+
+type rwFree struct {
+	m     *RWMutex
+	w     *vrt.World
+	write bool
+}
+
+//go:norace
+func (c rwFree) Ready() bool {
+	c.m.fresh(c.w)
+	if c.write {
+		return !c.m.writer && c.m.readers == 0
+	}
+	return !c.m.writer
+}
+
+type wgZero struct {
+	g *WaitGroup
+	w *vrt.World
+}
+
+//go:norace
+func (c wgZero) Ready() bool { c.g.fresh(c.w); return c.g.n <= 0 }
+
+type onceIdle struct {
+	o *Once
+	w *vrt.World
+}
+
+//go:norace
+func (c onceIdle) Ready() bool { c.o.fresh(c.w); return !c.o.running }
+
+//go:norace
+func (m *RWMutex) wlockModel(w *vrt.World) {
+	if w.Closing() {
+		return
+	}
+	m.fresh(w)
+	w.PointC("wlock", false, rwFree{m, w, true})
+	if w.Closing() {
+		return
+	}
+	m.writer = true
+}
+
+//go:norace
+func (m *RWMutex) rlockModel(w *vrt.World) {
+	if w.Closing() {
+		return
+	}
+	m.fresh(w)
+	w.PointC("rlock", false, rwFree{m, w, false})
+	if w.Closing() {
+		return
+	}
+	m.readers++
+}
+
+//go:norace
+func (g *WaitGroup) waitModel(w *vrt.World) {
+	if w.Closing() {
+		return
+	}
+	g.fresh(w)
+	w.PointC("wg.wait", false, wgZero{g, w})
+}
+
+//go:norace
+func (o *Once) finish() {
+	vrt.RaceRelease(unsafe.Pointer(o))
+	o.end()
 }
